@@ -96,7 +96,7 @@ def extract_proxy() -> dict:
                         out["proxyStatus" + cls_name.capitalize()] = status
         # URL construction: the first f-string assigned to `upstream_url`, the sources of `path` and the query
         for n in ast.walk(run):
-            if isinstance(n, ast.Assign) and len(n.targets) == 1 and ast.unparse(n.targets[0]) == "upstream_url" and out["proxyUrlParts"] is None:
+            if isinstance(n, ast.Assign) and any(ast.unparse(t) == "upstream_url" for t in n.targets) and out["proxyUrlParts"] is None:
                 if isinstance(n.value, ast.JoinedStr):
                     parts = []
                     for v in n.value.values:
